@@ -99,7 +99,7 @@ pub fn demo_model_count_sdd(cnf_input: String) -> Result<JsValue, JsValue> {
 
     let mut params: WmcParams<FiniteField<{ primes::U32_TINY }>> = WmcParams::default();
 
-    for v in 0..builder.vtree_manager().num_vars() + 1 {
+    for v in 0..builder.vtree_manager().num_vars() {
         params.set_weight(
             VarLabel::new_usize(v),
             FiniteField::new(1),
